@@ -49,6 +49,8 @@ func runDump(path string) {
 	var c *syz.Collection
 	var dim int
 	var exported []byte
+	base := path
+	var extra []string
 	path2 := path + ".imp"
 	u := func(s string) uint64 { v, _ := strconv.ParseUint(s, 10, 64); return v }
 	mh := func(s string) []byte {
@@ -73,6 +75,12 @@ func runDump(path string) {
 			case "new":
 				dim = int(u(f[1]))
 				syz.Configure(syz.Config{RandomSeed: int64(u(f[4]))})
+				if len(f) > 5 {
+					// the collection lives in a file whose name ends in these bytes (the name is part of the exported options)
+					path = base + string(mh(f[5]))
+					path2 = path + ".imp"
+					extra = append(extra, path, path2)
+				}
 				os.Remove(path)
 				var err error
 				c, err = syz.NewCollection(syz.CollectionOptions{Name: path, DistanceMethod: int(u(f[3])), DimensionCount: dim, Quantization: int(u(f[2])), FileMode: syz.CreateAndOverwrite})
@@ -249,4 +257,7 @@ func runDump(path string) {
 	}
 	os.Remove(path)
 	os.Remove(path2)
+	for _, x := range extra {
+		os.Remove(x)
+	}
 }
